@@ -3,11 +3,8 @@ package rules
 import (
 	"fmt"
 	"go/constant"
-	"go/token"
 	"go/types"
 	"sort"
-
-	"golang.org/x/tools/go/ssa"
 
 	"knutlint/core"
 )
@@ -57,14 +54,15 @@ func RuleKWeekBounds(c *core.Ctx) {
 			uses := false
 			bad := ""
 			for wd := 0; wd < 7; wd++ {
-				ex := &wdExec{p: p, date: fn.Params[0], ivParam: fn.Params[1], iv: iv, wd: int64(wd), vals: map[ssa.Value]int64{}}
-				off, usesWd, why := ex.run(fn)
+				r, why := runDateFunc(p, fn, iv, int64(wd), 0)
 				if why != "" {
 					bad = why
 				}
-				if usesWd {
-					uses = true
-					offs[wd] = off
+				if r.kind == aDate && r.cal.kind == calSelf {
+					offs[wd] = r.dayOff
+					if r.usesWd || r.dayOff != offs[0] {
+						uses = true // the result depends on the weekday, by value or by control
+					}
 				}
 			}
 			if !uses {
@@ -111,259 +109,3 @@ func weekdayName(wd int) string {
 	return []string{"Sun", "Mon", "Tue", "Wed", "Thu", "Fri", "Sat"}[wd]
 }
 
-// wdExec executes a function of (date, interval) with a concrete weekday class
-// and interval; everything else about the date is unknown.
-type wdExec struct {
-	p       *core.Prog
-	date    *ssa.Parameter
-	ivParam *ssa.Parameter
-	iv, wd  int64
-	vals    map[ssa.Value]int64
-	usesWd  map[ssa.Value]bool
-}
-
-func (ex *wdExec) run(fn *ssa.Function) (off int64, usesWd bool, why string) {
-	ex.usesWd = map[ssa.Value]bool{}
-	var pred *ssa.BasicBlock
-	b := fn.Blocks[0]
-	for steps := 0; steps < 500; steps++ {
-		for _, ins := range b.Instrs {
-			v, ok := ins.(ssa.Value)
-			if !ok {
-				continue
-			}
-			if phi, ok := ins.(*ssa.Phi); ok {
-				for i, pb := range b.Preds {
-					if pb == pred {
-						if x, ok := ex.get(phi.Edges[i]); ok {
-							ex.vals[phi] = x
-							ex.usesWd[phi] = ex.usesWd[core.Strip(phi.Edges[i])]
-						}
-					}
-				}
-				continue
-			}
-			ex.eval(v)
-		}
-		switch t := b.Instrs[len(b.Instrs)-1].(type) {
-		case *ssa.If:
-			cv, ok := ex.cond(t.Cond)
-			if !ok {
-				return 0, false, "" // a branch that does not depend on weekday or interval: this path is not about weeks
-			}
-			pred = b
-			if cv {
-				b = b.Succs[0]
-			} else {
-				b = b.Succs[1]
-			}
-		case *ssa.Jump:
-			pred, b = b, b.Succs[0]
-		case *ssa.Return:
-			if len(t.Results) != 1 {
-				return 0, false, ""
-			}
-			off, uses, ok, why := ex.dateOffset(t.Results[0], 0)
-			if why != "" {
-				return 0, true, why
-			}
-			if !ok {
-				return 0, false, ""
-			}
-			return off, uses, ""
-		default:
-			return 0, false, ""
-		}
-	}
-	return 0, false, "the control flow does not terminate within 500 steps"
-}
-
-// dateOffset: v is the function's date moved by a number of days: the date
-// itself, x.AddDate(0, 0, n) of such a value, or the result of a sibling
-// function of (date, interval) applied to the date.
-func (ex *wdExec) dateOffset(v ssa.Value, depth int) (off int64, uses bool, ok bool, why string) {
-	v = core.Strip(v)
-	if depth > 4 {
-		return 0, false, false, ""
-	}
-	if ex.isDate(v) {
-		return 0, false, true, ""
-	}
-	call, isCall := v.(*ssa.Call)
-	if !isCall {
-		return 0, false, false, ""
-	}
-	callee := call.Call.StaticCallee()
-	if callee == nil {
-		return 0, false, false, ""
-	}
-	if callee.Name() == "AddDate" && callee.Pkg != nil && callee.Pkg.Pkg.Path() == "time" && len(call.Call.Args) == 4 {
-		o, u, ok, why := ex.dateOffset(call.Call.Args[0], depth+1)
-		if !ok || why != "" {
-			return 0, u, false, why
-		}
-		for _, a := range call.Call.Args[1:3] {
-			if x, ok := ex.get(a); !ok || x != 0 {
-				return 0, false, false, ""
-			}
-		}
-		d := core.Strip(call.Call.Args[3])
-		x, known := ex.get(d)
-		if !known {
-			if u || ex.dependsOnWeekday(d, 0) {
-				return 0, true, false, "the offset at " + ex.p.Pos(call.Pos()) + " depends on the weekday through an operation this rule does not evaluate"
-			}
-			return 0, false, false, ""
-		}
-		return o + x, u || ex.usesWd[d], true, ""
-	}
-	// a sibling: same shape, applied to the date itself
-	if core.PkgPathOf(callee) == pkgDate && callee.Blocks != nil && len(callee.Params) == 2 && len(call.Call.Args) == 2 && isTimeType(callee.Params[0].Type()) && ex.isDate(call.Call.Args[0]) {
-		if iv2, ok := ex.get(call.Call.Args[1]); ok {
-			sub := &wdExec{p: ex.p, date: callee.Params[0], ivParam: callee.Params[1], iv: iv2, wd: ex.wd, vals: map[ssa.Value]int64{}}
-			o, u, why := sub.run(callee)
-			if why != "" {
-				return 0, true, false, why
-			}
-			if !u {
-				return 0, false, false, ""
-			}
-			return o, true, true, ""
-		}
-	}
-	return 0, false, false, ""
-}
-
-func (ex *wdExec) isDate(v ssa.Value) bool {
-	v = core.Strip(v)
-	if v == ex.date {
-		return true
-	}
-	// the parameter spilled to a local
-	if ld, ok := v.(*ssa.UnOp); ok && ld.Op == token.MUL {
-		if al, ok := ld.X.(*ssa.Alloc); ok {
-			if st := core.StoresTo(al); len(st) == 1 && core.Strip(st[0].Val) == ex.date {
-				return true
-			}
-		}
-	}
-	return false
-}
-
-func (ex *wdExec) dependsOnWeekday(v ssa.Value, depth int) bool {
-	if depth > 10 {
-		return false
-	}
-	v = core.Strip(v)
-	if call, ok := v.(*ssa.Call); ok {
-		if callee := call.Call.StaticCallee(); callee != nil && callee.Name() == "Weekday" && callee.Pkg != nil && callee.Pkg.Pkg.Path() == "time" {
-			return true
-		}
-	}
-	if ins, ok := v.(ssa.Instruction); ok {
-		for _, op := range ins.Operands(nil) {
-			if op != nil && *op != nil && ex.dependsOnWeekday(*op, depth+1) {
-				return true
-			}
-		}
-	}
-	return false
-}
-
-func (ex *wdExec) get(v ssa.Value) (int64, bool) {
-	v = core.Strip(v)
-	if cst, ok := v.(*ssa.Const); ok {
-		if cst.Value != nil && cst.Value.Kind() == constant.Int {
-			return constant.Int64Val(cst.Value)
-		}
-		return 0, false
-	}
-	if v == ex.ivParam {
-		return ex.iv, true
-	}
-	x, ok := ex.vals[v]
-	return x, ok
-}
-
-func (ex *wdExec) eval(v ssa.Value) {
-	set := func(x int64, uses bool) {
-		ex.vals[v] = x
-		ex.usesWd[v] = uses
-	}
-	switch x := v.(type) {
-	case *ssa.Convert:
-		if a, ok := ex.get(x.X); ok {
-			set(a, ex.usesWd[core.Strip(x.X)])
-		}
-	case *ssa.ChangeType:
-		if a, ok := ex.get(x.X); ok {
-			set(a, ex.usesWd[core.Strip(x.X)])
-		}
-	case *ssa.UnOp:
-		if x.Op == token.SUB {
-			if a, ok := ex.get(x.X); ok {
-				set(-a, ex.usesWd[core.Strip(x.X)])
-			}
-		}
-	case *ssa.BinOp:
-		a, ok1 := ex.get(x.X)
-		b, ok2 := ex.get(x.Y)
-		if !ok1 || !ok2 {
-			return
-		}
-		uses := ex.usesWd[core.Strip(x.X)] || ex.usesWd[core.Strip(x.Y)]
-		switch x.Op {
-		case token.ADD:
-			set(a+b, uses)
-		case token.SUB:
-			set(a-b, uses)
-		case token.MUL:
-			set(a*b, uses)
-		case token.QUO:
-			if b != 0 {
-				set(a/b, uses)
-			}
-		case token.REM:
-			if b != 0 {
-				set(a%b, uses)
-			}
-		}
-	case *ssa.Call:
-		callee := x.Call.StaticCallee()
-		if callee != nil && callee.Name() == "Weekday" && callee.Pkg != nil && callee.Pkg.Pkg.Path() == "time" && len(x.Call.Args) == 1 && ex.isDate(x.Call.Args[0]) {
-			set(ex.wd, true)
-		}
-	}
-}
-
-func (ex *wdExec) cond(v ssa.Value) (bool, bool) {
-	v = core.Strip(v)
-	switch x := v.(type) {
-	case *ssa.UnOp:
-		if x.Op == token.NOT {
-			r, ok := ex.cond(x.X)
-			return !r, ok
-		}
-	case *ssa.BinOp:
-		a, ok1 := ex.get(x.X)
-		b, ok2 := ex.get(x.Y)
-		if !ok1 || !ok2 {
-			return false, false
-		}
-		switch x.Op {
-		case token.EQL:
-			return a == b, true
-		case token.NEQ:
-			return a != b, true
-		case token.LSS:
-			return a < b, true
-		case token.LEQ:
-			return a <= b, true
-		case token.GTR:
-			return a > b, true
-		case token.GEQ:
-			return a >= b, true
-		}
-	}
-	return false, false
-}
